@@ -73,6 +73,7 @@ def gen_config(rng, profile):
         "file_size": rng.choice(["small", "small", "medium", "full"]) if profile == "C18" else "small",
         "focus": rng.choice([None, None, "electrostatic_potential", "import", "eval", "integral", "update", "screen"]),
         "p_reissue": rng.choice([0.0, 0.4, 0.8]),
+        "p_big": rng.choice([0.0, 0.0, 0.0, 0.3]),
     }
     return cfg
 
@@ -183,6 +184,8 @@ def _scenario(rng, cfg, profile):
 def gen_history(seed, profile):
     rng = random.Random(seed)
     cfg = gen_config(rng, profile)
+    if cfg.get("p_big"):
+        cfg["max_l"] = rng.choice([3, 4, 5])
     ops = []
     # preamble: something to work on
     if rng.random() < 0.35:
@@ -311,6 +314,8 @@ def g_ctor(rng, cfg):
 
 def g_new_container(rng, cfg):
     n = rng.choice([1, 1, 2, 2, 3, 4])
+    if cfg.get("p_big") and rng.random() < 0.3:
+        n = rng.randint(5, 10)
     return {
         "op": "new_container",
         "type": rng.choice(["list", "tuple"]),
@@ -396,7 +401,7 @@ def g_make_contr(rng, cfg, keep=None):
         "atoms": [rng.randrange(D) for _ in range(n)],
         "atoms_type": rng.choice(["list", "tuple"]),
         "coords": {"reuse": rng.random() < cfg["p_reuse"], "d": rng.randrange(D), "seed": rng.randrange(D),
-                   "scale": cfg["coord_scale"]},
+                   "scale": cfg["coord_scale"], "layout": rng.choice(["c", "c", "c", "f", "strided", "int"])},
         "ct": {
             "kind": rng.choice(["str", "list", "list", "tuple", "tuple"]),
             "reuse": rng.random() < cfg["p_reuse"],
@@ -564,6 +569,7 @@ def g_query(rng, cfg, fn=None):
     op = {
         "op": "query",
         "fn": fn,
+        "big": rng.random() < cfg.get("p_big", 0.0),
         "d": [rng.randrange(D) for _ in range(12)],
         "seed": rng.randrange(D),
         "transform": tr,
